@@ -26,7 +26,11 @@ pub fn get() -> FunctionDefinitions {
                                 }
                             }
                         }
-                        Some(sum.into())
+                        if sum.is_finite() {
+                            Some(sum.into())
+                        } else {
+                            None
+                        }
                     }
                     _ => None,
                 }
